@@ -11,6 +11,55 @@ import Cascette.Spec.Md5
 open Cascette Drv
 open Cascette.Model.Blte
 
+/-! ### byte strings on the line
+
+Lower-case hex (`-` = empty) or the compact notation of harness/src/bin/c01.rs: `<unit>*<n>` = the
+unit cycled to exactly `n` bytes, segments concatenated with `+`. Output is canonical: a string of
+at least `compactMin` bytes that has a period `k ≤ 8` from byte 0 (else from byte 1) is always
+printed compactly with the smallest such `k`, exactly as the harness prints it. -/
+
+def compactMin : Nat := 1024
+
+/-- `unit` cycled to `n` bytes (`unit ≠ []`). -/
+def cycleTo (unit : Bytes) (n : Nat) : Bytes :=
+  let reps := n / unit.length
+  ((List.replicate reps unit).flatten ++ unit.take (n % unit.length))
+
+def parseSeg (seg : String) : Option Bytes :=
+  match seg.splitOn "*" with
+  | [h] => parseHex h
+  | [u, n] =>
+    match parseHex u, (if n.isEmpty ∨ ¬ n.all Char.isDigit then none else n.toNat?) with
+    | some u, some n => if u.isEmpty ∨ n > 2 ^ 28 then none else some (cycleTo u n)
+    | _, _ => none
+  | _ => none
+
+/-- request-side parser: plain hex, or `+`-separated segments. -/
+def parseD (s : String) : Option Bytes :=
+  if s.contains '*' ∨ s.contains '+' then
+    ((s.splitOn "+").mapM parseSeg).map List.flatten
+  else parseHex s
+
+/-- `l[i] = l[i-k]` for all `i ≥ k`. -/
+def periodic (l : Bytes) (k : Nat) : Bool :=
+  ((l.drop k).zip l).all fun (a, b) => a == b
+
+def periodOf (l : Bytes) : Option Nat :=
+  [1, 2, 3, 4, 5, 6, 7, 8].find? (periodic l)
+
+/-- response-side printer (canonical). -/
+def hexC (l : Bytes) : String :=
+  if (l.take compactMin).length < compactMin then hexOf l else
+  match periodOf l with
+  | some k => hexOf (l.take k) ++ "*" ++ toString l.length
+  | none =>
+    match l with
+    | b :: t =>
+      match periodOf t with
+      | some k => hexOf [b] ++ "+" ++ hexOf (t.take k) ++ "*" ++ toString t.length
+      | none => hexOf l
+    | [] => hexOf l
+
 def modeOf : String → Option Mode
   | "N" => some .none | "Z" => some .zlib | "4" => some .lz4 | "E" => some .enc | "F" => some .frame
   | _ => none
@@ -42,11 +91,11 @@ def parseTab (s : String) : Option Tab :=
     match ent.splitOn ":" with
     | [m, p, c] =>
       if m.startsWith "d" then
-        match modeOf (m.drop 1).toString, parseHex p with
-        | some m, some p => if c == "!" then some ⟨true, m, p, none⟩ else (parseHex c).map fun c => ⟨true, m, p, some c⟩
+        match modeOf (m.drop 1).toString, parseD p with
+        | some m, some p => if c == "!" then some ⟨true, m, p, none⟩ else (parseD c).map fun c => ⟨true, m, p, some c⟩
         | _, _ => none
       else
-        match modeOf m, parseHex p, parseHex c with
+        match modeOf m, parseD p, parseD c with
         | some m, some p, some c => some ⟨false, m, p, some c⟩
         | _, _, _ => none
     | _ => none
@@ -63,7 +112,7 @@ def parseKeys (s : String) : Option (List (Nat × Bytes)) :=
   (s.splitOn ",").mapM fun ent =>
     match ent.splitOn ":" with
     | [n, k] =>
-      match n.toNat?, parseHex k with
+      match n.toNat?, parseD k with
       | some n, some k => if k.length = 16 then some (n, k) else none
       | _, _ => none
     | _ => none
@@ -73,7 +122,7 @@ def keysOf (l : List (Nat × Bytes)) (n : Nat) : Option Bytes :=
   (l.reverse.find? fun e => e.1 = n).map (·.2)
 
 def specOf (et name iv key : String) : Option (EncSpec × Bytes) :=
-  match et.toNat?, name.toNat?, parseHex iv, parseHex key with
+  match et.toNat?, name.toNat?, parseD iv, parseD key with
   | some et, some name, some iv, some key =>
     if et < 256 ∧ name < 2 ^ 64 ∧ iv.length = 4 ∧ key.length = 16 then
       some (⟨name, iv, BitVec.ofNat 8 et⟩, key)
@@ -91,12 +140,12 @@ def parseItems (s : String) : Option (List Item) :=
   (s.splitOn ",").mapM fun ent =>
     match ent.splitOn ":" with
     | [m, d] =>
-      match modeOf m, parseHex d with
+      match modeOf m, parseD d with
       | some m, some d => some (.new d m)
       | _, _ => none
     | [m, d, decl] =>
       if m.startsWith "r" then
-        match modeOf (m.drop 1).toString, parseHex d with
+        match modeOf (m.drop 1).toString, parseD d with
         | some m, some d =>
           if decl == "-" then some (.raw ⟨m, d, none⟩)
           else decl.toNat?.map fun n => .raw ⟨m, d, some n⟩
@@ -124,7 +173,7 @@ def itemChunks (cd : Codec) (items : List Item) : Except Err (List Chunk) :=
       | .ok c, .ok cs => .ok (c :: cs)) (.ok [])
 
 def outFile : Except Err File → String
-  | .ok f => "ok " ++ hexOf (serialize f)
+  | .ok f => "ok " ++ hexC (serialize f)
   | .error e => errStr e
 
 abbrev St := Option Builder
@@ -141,11 +190,11 @@ def rowsLine (f : File) : String :=
   match f.table with
   | none => s!"single chunks={f.chunks.length}"
   | some rows =>
-    let rs := rows.map fun r => s!"{r.csize}:{r.dsize}:{hexOf r.checksum}"
+    let rs := rows.map fun r => s!"{r.csize}:{r.dsize}:{hexC r.checksum}"
     s!"table hs={f.headerSize} n={rows.length} " ++ (if rs.isEmpty then "-" else ",".intercalate rs)
 
 def outBytes : Except Err Bytes → String
-  | .ok b => "ok " ++ hexOf b
+  | .ok b => "ok " ++ hexC b
   | .error e => errStr e
 
 def handle (st : St) : List String → St × String
@@ -164,23 +213,23 @@ def handle (st : St) : List String → St × String
     | none => (st, "bad-op")
   | ["noenc"] => stepResp st (codecOf []) .withoutEncryption
   | ["add", d, tab] =>
-    match parseHex d, parseTab tab with
+    match parseD d, parseTab tab with
     | some d, some t => stepResp st (codecOf t) (.addData d)
     | _, _ => (st, "bad-op")
   | ["mixed", d, "none", tab] =>
-    match parseHex d, parseTab tab with
+    match parseD d, parseTab tab with
     | some d, some t => stepResp st (codecOf t) (.addMixed d none)
     | _, _ => (st, "bad-op")
   | ["mixed", d, et, name, iv, key, tab] =>
-    match parseHex d, specOf et name iv key, parseTab tab with
+    match parseD d, specOf et name iv key, parseTab tab with
     | some d, some e, some t => stepResp st (codecOf t) (.addMixed d (some e))
     | _, _, _ => (st, "bad-op")
   | ["encdata", d, et, name, iv, key, idx, tab] =>
-    match parseHex d, specOf et name iv key, idx.toNat?, parseTab tab with
+    match parseD d, specOf et name iv key, idx.toNat?, parseTab tab with
     | some d, some (s, k), some idx, some t => stepResp st (codecOf t) (.addEncrypted d s k idx)
     | _, _, _, _ => (st, "bad-op")
   | ["chunk", m, d, tab] =>
-    match modeOf m, parseHex d, parseTab tab with
+    match modeOf m, parseD d, parseTab tab with
     | some m, some d, some t => stepResp st (codecOf t) (.addChunkNew d m)
     | _, _, _ => (st, "bad-op")
   | ["build"] =>
@@ -188,24 +237,24 @@ def handle (st : St) : List String → St × String
     | none => (none, "dead")
     | some b =>
       match build Spec.Md5.md5 b with
-      | .ok f => (none, "ok " ++ hexOf (serialize f))
+      | .ok f => (none, "ok " ++ hexC (serialize f))
       | .error e => (none, errStr e)
   | ["dec", f, keys, tab] =>
-    match parseHex f, parseKeys keys, parseTab tab with
+    match parseD f, parseKeys keys, parseTab tab with
     | some f, some ks, some t =>
       (st, outBytes (decodeBytes (codecOf t) (keysOf ks) f))
     | _, _, _ => (st, "bad-op")
   | ["decplain", f, tab] =>
-    match parseHex f, parseTab tab with
+    match parseD f, parseTab tab with
     | some f, some t =>
       (st, outBytes (decodePlainBytes (codecOf t) f))
     | _, _ => (st, "bad-op")
   | ["compress", cs, m, d, tab] =>
-    match cs.toNat?, modeOf m, parseHex d, parseTab tab with
+    match cs.toNat?, modeOf m, parseD d, parseTab tab with
     | some cs, some m, some d, some t => (st, outFile (compress (codecOf t) Spec.Md5.md5 d cs m))
     | _, _, _, _ => (st, "bad-op")
   | ["single", m, d, tab] =>
-    match modeOf m, parseHex d, parseTab tab with
+    match modeOf m, parseD d, parseTab tab with
     | some m, some d, some t => (st, outFile (singleChunk (codecOf t) d m))
     | _, _, _ => (st, "bad-op")
   | ["multi", fmt, items, tab] =>
@@ -217,12 +266,12 @@ def handle (st : St) : List String → St × String
         if fmt == "std" then (st, outFile (multiChunk Spec.Md5.md5 chunks))
         else if fmt == "ext" then
           match multiChunkExt (codecOf t) Spec.Md5.md5 chunks with
-          | .ok xf => (st, "ok " ++ hexOf (serializeX xf))
+          | .ok xf => (st, "ok " ++ hexC (serializeX xf))
           | .error e => (st, errStr e)
         else (st, "bad-op")
     | _, _ => (st, "bad-op")
   | ["rows", f] =>
-    match parseHex f with
+    match parseD f with
     | some f =>
       match parse f with
       | .ok file => (st, rowsLine file)
